@@ -5,8 +5,8 @@ package main
 //
 // Structural addresses inside BatchFunc: funclit[0] = producer goroutine, funclit[1] = batcher
 // goroutine; inside the batcher funclit[0] = deferred cleanup, funclit[1] = flush,
-// funclit[2] = stopTimer, funclit[3] = startTimer; the loop is for[0]/select[0] with
-// case[0] = `<-c`, case[1] = `<-timerC`, case[2] = `<-out.waiting`.
+// funclit[2] = stopTimer, funclit[3] = startTimer; the loop is for[0]/select[0]; its arms are
+// addressed by channel (comm[c], comm[timerC], comm[out.waiting]), not by position.
 
 import (
 	"fmt"
@@ -38,7 +38,7 @@ func init() {
 		sel("loopArms", bf, loop),
 		sel("flushArms", bf, "funclit[1]/funclit[1]/select[0]"),
 		sel("nextOuterArms", "batchStream.Next", "select[0]"),
-		sel("nextInnerArms", "batchStream.Next", "select[0]/case[1].body/select[0]"),
+		sel("nextInnerArms", "batchStream.Next", "select[0]/comm[iter.waiting].body/select[0]"),
 		// the producer's hand-off of an item to the batcher: a bare `c <- item` (arm table with the
 		// single send arm) or a select around it
 		Site{Module: mod, Pkg: pkg, Func: bf, Name: "producerSendArms", Kind: Custom, Custom: producerSendArms},
@@ -48,18 +48,18 @@ func init() {
 		expr("wgCount", bf, "call[out.wg.Add][0].arg[0]", "Int", nil, nil),
 		Site{Module: mod, Pkg: pkg, Func: bf, Name: "unbufferedChans", Kind: Custom, Custom: unbufferedChans},
 		// ---- batcher: the `<-c` arm
-		expr("endFlushCond", bf, loop+"/case[0].body/if[0].body/if[0].cond", "Bool", []Param{{"len", "Int"}}, lenV),
-		stmts("fullStmts", bf, loop+"/case[0].body/if[2].body"),
-		expr("firstItemCond", bf, loop+"/case[0].body/if[4].cond", "Bool", []Param{{"len", "Int"}}, lenV),
-		stmts("firstItemStmts", bf, loop+"/case[0].body/if[4].body"),
+		expr("endFlushCond", bf, loop+"/comm[c].body/if[0].body/if[0].cond", "Bool", []Param{{"len", "Int"}}, lenV),
+		stmts("fullStmts", bf, loop+"/comm[c].body/if[2].body"),
+		expr("firstItemCond", bf, loop+"/comm[c].body/if[4].cond", "Bool", []Param{{"len", "Int"}}, lenV),
+		stmts("firstItemStmts", bf, loop+"/comm[c].body/if[4].body"),
 		// ---- the `<-timerC` arm
-		stmts("timerArmStmts", bf, loop+"/case[1].body"),
+		stmts("timerArmStmts", bf, loop+"/comm[timerC].body"),
 		// ---- the `<-out.waiting` arm
-		expr("waitNonEmptyCond", bf, loop+"/case[2].body/if[0].cond", "Bool", []Param{{"len", "Int"}}, lenV),
-		expr("waitElapsed", bf, loop+"/case[2].body/if[0].body/if[0].cond", "Bool", []Param{{"since", "Int"}, {"maxWait", "Int"}}, timeV),
-		stmts("waitElapsedStmts", bf, loop+"/case[2].body/if[0].body/if[0].body"),
-		stmts("waitNotElapsedStmts", bf, loop+"/case[2].body/if[0].body/if[0].else"),
-		stmts("waitEmptyStmts", bf, loop+"/case[2].body/if[0].else"),
+		expr("waitNonEmptyCond", bf, loop+"/comm[out.waiting].body/if[0].cond", "Bool", []Param{{"len", "Int"}}, lenV),
+		expr("waitElapsed", bf, loop+"/comm[out.waiting].body/if[0].body/if[0].cond", "Bool", []Param{{"since", "Int"}, {"maxWait", "Int"}}, timeV),
+		stmts("waitElapsedStmts", bf, loop+"/comm[out.waiting].body/if[0].body/if[0].body"),
+		stmts("waitNotElapsedStmts", bf, loop+"/comm[out.waiting].body/if[0].body/if[0].else"),
+		stmts("waitEmptyStmts", bf, loop+"/comm[out.waiting].body/if[0].else"),
 		// ---- flush / stopTimer / startTimer / cleanup
 		present("flushClearsWaitingAtEmpty", bf, "funclit[1]/funclit[1]", "waitingAtEmpty = false"),
 		present("stopTimerClearsTimerC", bf, "funclit[1]/funclit[2]", "timerC = nil"),
